@@ -13,7 +13,7 @@ the jsrun scheduler's own slot format), FLUX, DRAGON (no command is built)."""
 import os
 import re
 import shutil
-import tempfile
+import tempfile, copy
 
 import common
 import rpload
@@ -593,10 +593,78 @@ def gen_cfg(rng, lm):
     return cfg
 
 
+def run_registry(rp, names, sbox):
+    """launch methods of ONE family in several flavours (MPIRUN, MPIRUN_MPT, MPIRUN_DPLACE ... - a platform may configure
+    more than one) created one after the other through the REAL LaunchMethod.__init__ against one registry (in memory),
+    with the tools they look for on the PATH; each then writes the command for a task of 3 ranks placed 2 + 1.  Returns
+    the command per flavour."""
+    import radical.utils as ru
+    import radical.pilot.agent.launch_method.base as lmb
+    from radical.pilot.agent.launch_method.mpirun import MPIRun
+    bindir = os.path.join(sbox, 'lm_bin')
+    os.makedirs(bindir, exist_ok=True)
+    for tool in ('mpirun', 'omplace', 'dplace', 'ccmrun'):
+        fn = os.path.join(bindir, tool)
+        with open(fn, 'w') as fh: fh.write('#!/bin/sh\necho "mpirun (Open MPI) 4.1.0"\n')
+        os.chmod(fn, 0o755)
+    store = {}
+    class Reg(object):
+        def __init__(self, url=None, **kw): pass
+        def get(self, k): return copy.deepcopy(store.get(k))
+        def put(self, k, v): store[k] = copy.deepcopy(v)
+        def close(self): pass
+    saved = (ru.zmq.RegistryClient, ru.env_eval, ru.env_prep, lmb.LaunchMethod._init_from_scratch, os.environ.get('PATH', ''))
+    ru.zmq.RegistryClient, ru.env_eval, ru.env_prep = Reg, (lambda *a, **k: {}), (lambda *a, **k: {})
+    # (the inspection normally runs in a child process under the launcher's environment: here in this process)
+    lmb.LaunchMethod._init_from_scratch = lambda self, env, env_sh: self.init_from_scratch(env, env_sh)
+    os.environ['PATH'] = bindir + ':' + saved[4]
+    out = {}
+    try:
+        t = {'ranks': 3, 'cpr': 1, 'gpus': 0, 'use_mpi': True, 'exe': True,
+             'slots': [{'node': 2, 'host': 2, 'cores': [0], 'gpus': []}, {'node': 2, 'host': 2, 'cores': [1], 'gpus': []},
+                       {'node': 3, 'host': 3, 'cores': [0], 'gpus': []}]}
+        for name in names:
+            try:
+                o = MPIRun(name, ru.Config(from_dict={'reg_addr': 'mem://reg', 'pre_exec': [], 'pre_exec_cached': [], 'options': {},
+                                                        'resource': 'local.localhost'}),
+                           RMInfoStub(8, list(range(2, 10))), rpload.NullLog(), rpload.NullLog())
+                out[name] = o.get_launch_cmds(make_task(rp, t, 'task.000000', sbox), 'EXEC').replace(bindir + '/', '')
+            except Exception as e:
+                out[name] = 'raised %s' % type(e).__name__
+    finally:
+        ru.zmq.RegistryClient, ru.env_eval, ru.env_prep, lmb.LaunchMethod._init_from_scratch = saved[:4]
+        os.environ['PATH'] = saved[4]
+    return out
+
+
+REG_FLAVOURS = ['MPIRUN', 'MPIRUN_MPT', 'MPIRUN_DPLACE', 'MPIRUN_CCMRUN', 'MPIRUN_RSH']
+
+
+def registry_part(ctx, rp, sbox):
+    import itertools
+    alone = {n: run_registry(rp, [n], sbox)[n] for n in REG_FLAVOURS}
+    n = 0
+    for a, b in itertools.permutations(REG_FLAVOURS, 2):
+        got = run_registry(rp, [a, b], sbox)
+        n += 1
+        ctx.case({'registry': [a, b]}, nontrivial=True)
+        for name in (a, b):
+            if got[name] != alone[name]:
+                ctx.fail('launch-method:command-depends-on-the-flavours-created-before',
+                         '%s created %s %s writes `%s`; created alone it writes `%s`' % (name, 'after' if name == b else 'before', a if name == b else b, got[name], alone[name]),
+                         {'kind': 'registry', 'names': [a, b]})
+                break
+    if any(v.startswith('raised') for v in alone.values()):
+        ctx.fail('launch-method:creation-through-the-registry-raises', str(alone), {'kind': 'registry', 'names': REG_FLAVOURS[:1]})
+    ctx.obligation('launch methods of one family in two flavours created through the real LaunchMethod.__init__ against one registry: each writes '
+                   'the command it writes when created alone (%d ordered pairs)' % n, 'tie', True, '')
+
+
 def run(ctx):
     rp  = rpload.load()
     rng = ctx.rng
     sbox = tempfile.mkdtemp(prefix='c09_')
+    registry_part(ctx, rp, sbox)
     ops, impl = [], []
     dist = {lm: 0 for lm in LMS}
     dist.update({'errors': 0, 'tasks': 0, 'multi_node': 0, 'holes': 0, 'hostfile': 0, 'cannot': 0})
@@ -696,6 +764,15 @@ def run(ctx):
 def replay(ctx, data):
     rp = rpload.load()
     i  = data['input']
+    if i.get('kind') == 'registry':
+        sbox = tempfile.mkdtemp(prefix='c09_')
+        try:
+            alone = {n: run_registry(rp, [n], sbox)[n] for n in i['names']}
+            got = run_registry(rp, i['names'], sbox)
+        finally:
+            shutil.rmtree(sbox, ignore_errors=True)
+        print('alone:', alone); print('together:', got)
+        return got == alone and not any(v.startswith('raised') for v in alone.values())
     if 'ibrun_chain' in i:
         c = i['ibrun_chain']
         sbox = tempfile.mkdtemp(prefix='c09_')
